@@ -14,6 +14,23 @@ import (
 
 func probe(ctx *common.Ctx) {
 	var jobs []job
+	if os.Getenv("VERIF_C17_PROBE") == "INST" {
+		ips := genInstProbes()
+		for i := range ips {
+			ips[i].Job.ID = i
+			jobs = append(jobs, ips[i].Job)
+		}
+		dir, _ := os.MkdirTemp("", "c17p-")
+		defer os.RemoveAll(dir)
+		for i, oc := range runJobs(selfBin(), dir, jobs, nil) {
+			if oc.Res == nil {
+				fmt.Println(ips[i].Op, ips[i].Kind, ips[i].Sync, "NO RESULT", oc.Crash)
+				continue
+			}
+			fmt.Printf("%-18s %-7s sync=%-5v waited=%-5v probed=%v value=%s err=%s hang=%v\n", ips[i].Op, ips[i].Kind, ips[i].Sync, oc.Res.Blocked, oc.Res.Probed, oc.Res.Value, oc.Res.Err, oc.Res.Hang)
+		}
+		return
+	}
 	if os.Getenv("VERIF_C17_PROBE") == "LOCKS" {
 		jobs = genLockProbes(0)
 		for i := range jobs {
